@@ -154,7 +154,7 @@ JointUniqueErrors(S, D) ==
               col |-> NA, ctx |-> "DataFrameSchema"] >>
 
 (* one column component: every target label, every column carrying it *)
-ColumnComponentErrors(cs, D) ==
+ColumnComponentErrorsWith(cs, D, ideal) ==
   LET tg == Targets(cs, D)
   IN IF tg = <<>>
      THEN IF cs.regex
@@ -164,7 +164,9 @@ ColumnComponentErrors(cs, D) ==
      ELSE Flatten([ t \in 1..Len(tg) |->
             LET ps == PositionsOf(D, tg[t])
             IN Flatten([ k \in 1..Len(ps) |->
-                  WithCol(Labelled(FieldErrors(AsField(cs, tg[t]), FieldAt(D, ps[k])), D.idx), tg[t], "Column") ]) ])
+                  WithCol(Labelled(IF ideal THEN FieldErrorsIdeal(AsField(cs, tg[t]), FieldAt(D, ps[k]))
+                                   ELSE FieldErrors(AsField(cs, tg[t]), FieldAt(D, ps[k])), D.idx), tg[t], "Column") ]) ])
+ColumnComponentErrors(cs, D) == ColumnComponentErrorsWith(cs, D, FALSE)
 
 (* is the component validated at all?  (collect_schema_components) *)
 ComponentActive(cs, D) ==
@@ -175,19 +177,20 @@ ComponentActive(cs, D) ==
 (* Deviation IndexFailureCasesByPosition: they carry the row position.        *)
 IndexErrorsIdeal(S, D) ==
   IF ~HasIndex(S) THEN <<>>
-  ELSE WithCol(Labelled(FieldErrors(S.index, IndexField(D)), D.idx), NA, "Index")
+  ELSE WithCol(Labelled(FieldErrorsIdeal(S.index, IndexField(D)), D.idx), NA, "Index")
 IndexErrorsByPosition(S, D) ==
   IF ~HasIndex(S) THEN <<>>
   ELSE WithCol(Labelled(FieldErrors(S.index, IndexField(D)), [ i \in 1..NRows(D) |-> iv(i - 1) ]), NA, "Index")
 
-ComponentsErrors(S, D) ==
+ComponentsErrorsWith(S, D, ideal) ==
   Flatten([ i \in 1..Len(S.cols) |->
-             IF ComponentActive(S.cols[i], D) THEN ColumnComponentErrors(S.cols[i], D) ELSE <<>> ])
+             IF ComponentActive(S.cols[i], D) THEN ColumnComponentErrorsWith(S.cols[i], D, ideal) ELSE <<>> ])
+ComponentsErrors(S, D) == ComponentsErrorsWith(S, D, FALSE)
 
 (* all errors of a frame, in the order the code produces them (no parsing)    *)
-FrameErrorsWith(S, D, soErrs, ixErrs) ==
+FrameErrorsWith(S, D, soErrs, ixErrs, ideal) ==
   soErrs \o LabelsUniqueErrors(S, D) \o PresenceErrors(S, D) \o JointUniqueErrors(S, D)
-    \o ComponentsErrors(S, D) \o ixErrs
-FrameErrors(S, D)      == FrameErrorsWith(S, D, StrictOrderedErrorsIdeal(S, D), IndexErrorsIdeal(S, D))
-FrameErrorsAsIs(S, D)  == FrameErrorsWith(S, D, StrictOrderedErrors(S, D), IndexErrorsByPosition(S, D))
+    \o ComponentsErrorsWith(S, D, ideal) \o ixErrs
+FrameErrors(S, D)      == FrameErrorsWith(S, D, StrictOrderedErrorsIdeal(S, D), IndexErrorsIdeal(S, D), TRUE)
+FrameErrorsAsIs(S, D)  == FrameErrorsWith(S, D, StrictOrderedErrors(S, D), IndexErrorsByPosition(S, D), FALSE)
 =============================================================================
